@@ -135,6 +135,18 @@ pub fn cases(tier: &str, _seed: u64) -> Vec<Case> {
         v.push(new_case(&format!("xyz.{}", base), "many-labels"));
         v.push(new_case(&format!("{}.-", base), "many-labels"));
     }
+    // long texts whose empty labels do not count: doubled and trailing dots make the text longer than 255 characters while
+    // the encoded name fits (the limit is on the encoding, not on the text), and the other way round
+    {
+        let l60 = "a".repeat(60);
+        let l61 = "b".repeat(61);
+        let full = format!("{}.{}.{}.{}", "a".repeat(63), "b".repeat(63), "c".repeat(63), "d".repeat(61)); // 254 characters, 255 octets
+        for text in [format!("{0}..{0}..{0}..{0}..", l60), format!("{0}.{0}.{0}.{0}", l60), ".".repeat(300), ".".repeat(255), ".".repeat(254), format!("{}{}", ".".repeat(200), l60),
+                     format!("{}.", full), format!("{}..", full), full.replacen('.', "..", 1), format!(".{}", full), format!("{0}.{0}.{0}.{1}", l61, l60), format!("{0}.{0}.{0}.{0}.", l61), format!("{0}..{0}..{0}..{0}", l61),
+                     format!("{}x", full), format!("x.{}", full)] {
+            v.push(new_case(&text, "long-text-empty-labels"));
+        }
+    }
     // encoded name lengths 245..262 in several shapes
     for total in 245..=262usize {
         for first in [1usize, 30, 63] {
@@ -176,6 +188,20 @@ pub fn cases(tier: &str, _seed: u64) -> Vec<Case> {
             extra.push((0..n).map(|_| r.pick(&pool).to_vec()).collect());
         }
         names.extend(extra);
+        // labels holding octets that look like length octets (a space is 32, a control byte 3 ...): the wire form of one
+        // name can end with the wire form of another without the labels doing so
+        {
+            let tail32 = b"0123456789abcdef0123456789abcdef".to_vec();
+            let mut kitchen = b"Kitchen ".to_vec(); kitchen.extend_from_slice(&tail32);
+            names.push(vec![kitchen, b"local".to_vec()]);
+            names.push(vec![tail32, b"local".to_vec()]);
+            names.push(vec![b"x\x03com".to_vec()]);
+            names.push(vec![b"com".to_vec()]);
+            names.push(vec![b"a\x01b".to_vec(), b"c".to_vec()]);
+            names.push(vec![b"b".to_vec(), b"c".to_vec()]);
+            names.push(vec![b"a.b".to_vec(), b"c".to_vec()]);
+            names.push(vec![b"\x05local".to_vec()]);
+        }
         // deeper names and the special-use zones code is apt to special-case (RFC 6762 12 lists the link-local reverse
         // zones: they are not `local`)
         for text in ["7.1.254.169.in-addr.arpa", "254.169.in-addr.arpa", "1.0.0.127.in-addr.arpa", "x.8.e.f.ip6.arpa", "9.e.f.ip6.arpa", "a.e.f.ip6.arpa", "b.e.f.ip6.arpa", "home.arpa", "arpa",
